@@ -29,6 +29,10 @@ for part, nslice, label in ((0, 2, "invoke"), (1, 1, "function_ref"), (2, 1, "in
         nm = f"C20_calls_{label}" + (f"_{sl}" if nslice > 1 else "")
         units.append(Unit(nm, "harness/C20_calls.cpp", defs=[f"-DVF_PART={part}", f"-DVF_NSLICE={nslice}", f"-DVF_SLICE={sl}"],
                           flavours={"quick": [O0], "thorough": [O0, "asan-cc", "asanO0-nocc"]}, shards={"quick": 2, "thorough": 4}))
+# round 4: () vs {} initialisation of everything built from forwarded pieces; over-aligned targets / elements
+units.append(Unit("C20_init", "harness/C20_init.cpp", flavours={"quick": ["asan-cc"], "thorough": ["asan-cc", "asan-nocc"]}, shards={"quick": 1, "thorough": 2}))
+units.append(Unit("C20_align", "harness/C20_align.cpp", flavours={"quick": ["asan-cc", "asanO0-cc"], "thorough": ["asan-cc", "asanO0-cc", "asan-nocc", "plain-cc"]},
+                  shards={"quick": 1, "thorough": 2}))
 for cap, tiers in ((8, ("quick", "thorough")), (16, ("quick", "thorough")), (32, ("thorough",))):
     units.append(Unit(f"C20_ipf_cap{cap}", "harness/C20_ipf.cpp", defs=[f"-DVF_CAP={cap}"],
                       flavours={"quick": ["asan-cc"] if "quick" in tiers else [], "thorough": ["asan-cc", "asan-nocc", "plain-cc"]},
